@@ -165,6 +165,22 @@ func histTag(c *Case, res *Result) string {
 	}
 	if vm[2] {
 		tag += "/ap"
+		// an explicit Rollback after an Update on an actively persisted store (see the C01 finding)
+		rolledBack := false
+		for _, ph := range c.Phases {
+			for _, tx := range ph.Txns {
+				if tx.End == "rollback" {
+					for _, op := range tx.Ops {
+						if c.Stores[op.S].ValueMode == 2 && (op.K == "update" || op.K == "upsert" || op.K == "updcur") {
+							rolledBack = true
+						}
+					}
+				}
+			}
+		}
+		if rolledBack {
+			tag += "-update-rolled-back"
+		}
 	}
 	if vm[1] || vm[3] {
 		tag += "/outofnode"
